@@ -75,11 +75,19 @@ func asU64(v interface{}) (uint64, bool) {
 func vfView(tag string) map[string]interface{} {
 	m := map[string]interface{}{}
 	for _, k := range []string{"a", "b", "c"} {
-		switch vf.Choice(tag+"."+k, 3) {
+		kinds := 3
+		if k == "c" {
+			kinds = 5 // numbers and arrays on one of the keys
+		}
+		switch vf.Choice(tag+"."+k, kinds) {
 		case 1:
 			m[k] = tag + "-" + k
 		case 2:
 			m[k] = map[string]interface{}{"n": tag}
+		case 3: // numbers: every number of a datatype is a float64, of any magnitude
+			m[k] = []float64{7, 2.5, -3, 1e19, -1e19, 18446744073709551615, 9007199254740993}[vf.Choice(tag+"."+k+".num", 7)]
+		case 4:
+			m[k] = []interface{}{"x", 1e19, map[string]interface{}{"n": 4.0}}
 		}
 	}
 	return m
@@ -92,6 +100,12 @@ func viewEq(a, b interface{}) bool {
 	}
 	if m, ok := b.(primitive.M); ok {
 		b = map[string]interface{}(m)
+	}
+	if l, ok := a.(primitive.A); ok {
+		a = []interface{}(l)
+	}
+	if l, ok := b.(primitive.A); ok {
+		b = []interface{}(l)
 	}
 	switch x := a.(type) {
 	case map[string]interface{}:
@@ -106,8 +120,40 @@ func viewEq(a, b interface{}) bool {
 			}
 		}
 		return true
+	case []interface{}:
+		y, ok := b.([]interface{})
+		if !ok || len(x) != len(y) {
+			return false
+		}
+		for i := range x {
+			if !viewEq(x[i], y[i]) {
+				return false
+			}
+		}
+		return true
+	}
+	// a number is the same JSON number whichever numeric type carries it
+	if fa, ok := asF64(a); ok {
+		fb, ok2 := asF64(b)
+		return ok2 && fa == fb
 	}
 	return a == b
+}
+
+func asF64(v interface{}) (float64, bool) {
+	switch x := v.(type) {
+	case float64:
+		return x, true
+	case float32:
+		return float64(x), true
+	case int64:
+		return float64(x), true
+	case int32:
+		return float64(x), true
+	case int:
+		return float64(x), true
+	}
+	return 0, false
 }
 
 func VF_Repo_UserDocument() {
